@@ -27,6 +27,13 @@ RULE = (
     "with the definition its subtype already has, or declared again on a subtype), a fresh CAS per call, every call observed; "
     "CASes whose feature structures (all, the owners, the elements, a random part) were created with the Type objects of a "
     "second TypeSystem declaring the same types (built again or re-read from to_xml). Every call is made twice. "
+    "How the CAS and the type system came about: structures added with keep_id under exactly the id the CAS would hand out "
+    "next (or a little above; 1-3 views, several such adds in a row), id-less owners / arrays / elements behind them, explicit "
+    "ids of referenced-only structures in the gaps below the generator; every create_feature call with domain, range and "
+    "element type given by name or as the Type object, or made through the deprecated alias add_feature (all 16 ways "
+    "systematically, random mixes, also in the sequences of calls); a type system whose types have no namespace (Item, "
+    "Owner, Ann) next to types with the same short name (legacy.Item, pkg.Owner, x.Ann), owners, elements and declared "
+    "element types among them (the harness keeps the Type objects create_type returned and never looks a user type up). "
     "Observation: sorted xmiIDs of the returned errors (or the error kind) of every call. A case is "
     "non-trivial when it has a violation, a null element, an unset FSArray feature or a referenced-only owner."
 )
@@ -44,6 +51,9 @@ ASSUMPTIONS = [
     "its supertypes (each call has a fresh CAS); a feature declared a second time (pull-up, repetition on a subtype) has "
     "the identical definition",
     "a second TypeSystem whose Type objects create feature structures declares exactly the same types and features",
+    "a ValueError('Duplicate FS id') is accepted only when two reachable structures carry the same explicit id or an id-less "
+    "reachable structure coexists with an explicit id at or above the id generator, the generator's position being derived "
+    "from the scenario (one id per view, then the add(keep_id=True) calls in order), not read from the CAS",
 ]
 
 T = scen.T
@@ -190,7 +200,7 @@ def systematic():
     yield sc_of(b, "behind_null")
 
 
-def random_tc(rng, n):
+def random_tc(rng, n, ids=True):
     b = B(nviews=rng.choice([1, 1, 2]))
     plain = [b.new(rng.choice(STORED[:4] + [TOP])) for _ in range(rng.randint(1, 4))]
     owners = []
@@ -250,6 +260,8 @@ def random_tc(rng, n):
         v = 0 if obj["type"] != "c.AnnOwner" else [i for i, vw in enumerate(b.views) if vw["name"] == obj["slots"]["sofa"]["sofa"]][0]
         b.add(o, v)
     sc = sc_of(b, "random")
+    if not ids:
+        return sc
     reach.set_ids(sc, rng.choice(["none", "none", "all", "partial"]), rng)
     if rng.random() < 0.05:
         rng.choice(sc["cspec"]["objs"])["id"] = 0
@@ -308,7 +320,8 @@ def stages_of(sc):
         tspec = tspec_after(tspec, st["add"])
         adds = adds + st["add"]
         out.append({"kind": "tc", "shape": sc["shape"], "tspec": tspec, "cspec": st["cspec"], "inl": False, "seeds": None,
-                    "foreign": st.get("foreign"), "how": st.get("how"), "decl": {"base": sc["tspec"], "adds": adds}})
+                    "foreign": st.get("foreign"), "how": st.get("how"), "decl": {"base": sc["tspec"], "adds": adds},
+                    "style": sc.get("style")})
     return out
 
 
@@ -356,13 +369,13 @@ def in_declared_order(schema, decl):
     return out
 
 
-def _array_feats(cassis, tspec):
+def _array_feats(cassis, tspec, owners=S_OWNERS):
     schema = scen.schema_of(cassis, tspec)
-    return {t: [f[0] for f in schema[t]["feats"] if f[2] == FS_ARRAY] for t in S_OWNERS}
+    return {t: [f[0] for f in schema[t]["feats"] if f[2] == FS_ARRAY] for t in owners}
 
 
 def _s_owner(b, ot, k=0, **refs):
-    if ot == "s.Ann":
+    if ot in ("s.Ann", "Ann", "x.Ann"):
         return b.new(ot, None, sofa={"sofa": b.views[0]["name"]}, begin={"i": k}, end={"i": k + 1},
                      **{n: reach.ref(v) for n, v in refs.items()})
     return b.new(ot, None, label={"s": "l%d" % k}, **{n: reach.ref(v) for n, v in refs.items()})
@@ -379,16 +392,17 @@ def full_cas(cassis, tspec, elems, owners=S_OWNERS):
     return b.cspec()
 
 
-def random_stage_cas(rng, cassis, tspec):
-    feats = _array_feats(cassis, tspec)
+def random_stage_cas(rng, cassis, tspec, fam=None):
+    fam = fam or S_FAM
+    feats = _array_feats(cassis, tspec, fam["owners"])
     b = B()
-    pool = [b.new(rng.choice(S_ELEMS)) for _ in range(rng.randint(2, 4))]
+    pool = [b.new(rng.choice(fam["elems"])) for _ in range(rng.randint(2, 4))]
     owners = []
-    for k, ot in enumerate(S_OWNERS):
+    for k, ot in enumerate(fam["owners"]):
         for j in range(rng.choice([0, 1, 1, 1, 2])):
             owners.append(_s_owner(b, ot, 3 * k + j))
     if not owners:
-        owners.append(_s_owner(b, rng.choice(S_OWNERS)))
+        owners.append(_s_owner(b, rng.choice(fam["owners"])))
     arrays = []
     for o in owners:
         obj = b.objs[o - 1]
@@ -405,11 +419,11 @@ def random_stage_cas(rng, cassis, tspec):
                 arrays.append(a)
             obj["slots"][fn] = reach.ref(a)
     hidden = set()
-    if "ref" in [f["name"] for t in tspec if t["name"] == "s.Special" for f in t["feats"]]:
-        specials = [o for o in owners if b.objs[o - 1]["type"] in ("s.Special", "s.Deep")]
-        plain = [o for o in owners if b.objs[o - 1]["type"] != "s.Ann"]
+    if "ref" in [f["name"] for t in tspec if t["name"] == fam["ref"][0] for f in t["feats"]]:
+        specials = [o for o in owners if b.objs[o - 1]["type"] in fam["ref"]]
+        plain = [o for o in owners if b.objs[o - 1]["type"] in fam["ref_targets"]]
         for o in specials:
-            if rng.random() < 0.5:
+            if rng.random() < 0.5 and plain:
                 tgt = rng.choice(plain)
                 b.objs[o - 1]["slots"]["ref"] = reach.ref(tgt)
                 if tgt != o and rng.random() < 0.6:
@@ -519,6 +533,225 @@ def systematic_foreign():
         yield c
 
 
+# ---------------------------------------------------------------- fourth-wave widening: how the CAS and the type system came about
+#
+# (a) explicit xmi:ids AT the id generator: structures added with keep_id under exactly the id the CAS would hand out next
+#     (or a little above), id-less structures behind them; explicit ids of referenced-only structures in the gaps below.
+# (b) "style": how every create_feature call passes its arguments: "<type>:<feature>" -> three letters n|o (domain, range,
+#     element type given by name or as the Type object) and an optional "a" (through the deprecated alias add_feature);
+#     default "onn" is what scen.build_ts does.
+# (c) type names without a namespace and types with equal short names (N_TSPEC).
+
+
+def expected_next(cspec):
+    """(the id the generator hands out next, label -> id) once the CAS is built the way build_cas builds it, from the scenario
+    alone: one id per view (its sofa), then the add(keep_id=True) calls in order: an explicit id is kept and ids from then on
+    are larger, an id-less structure takes the next one."""
+    nxt = 1 + len(cspec["views"])
+    ids = {o["o"]: o["id"] for o in cspec["objs"]}
+    for _v, lab in cspec["members"]:
+        i = ids[lab]
+        if i is None:
+            ids[lab] = nxt
+            nxt += 1
+        elif i >= nxt:
+            nxt = i + 1
+    return nxt, ids
+
+
+def set_boundary_ids(c, rng, p=0.6):
+    """c: anything with "cspec" whose ids are all absent.  Indexed structures get (with probability p) exactly the id the
+    generator would hand out at their add, or one a little above; structures that are not indexed get (sometimes) one of the
+    ids skipped that way: all explicit ids are distinct and, once the CAS is built, below the generator."""
+    cspec = c["cspec"]
+    by = {o["o"]: o for o in cspec["objs"]}
+    nxt = 1 + len(cspec["views"])
+    used = set(range(1, nxt))
+    for _v, lab in cspec["members"]:
+        o = by[lab]
+        if o["id"] is None and rng.random() < p:
+            o["id"] = nxt + rng.choice([0, 0, 0, 1, 2, 4])
+        if o["id"] is None:
+            used.add(nxt)                                    # add will give it this one; it stays id-less in the scenario
+            nxt += 1
+        else:
+            used.add(o["id"])
+            nxt = max(nxt, o["id"] + 1)
+    free = [i for i in range(1, nxt) if i not in used]
+    rng.shuffle(free)
+    members = {lab for _v, lab in cspec["members"]}
+    for o in cspec["objs"]:
+        if o["o"] not in members and o["id"] is None and free and rng.random() < 0.3:
+            o["id"] = free.pop()
+    return c
+
+
+def systematic_boundary():
+    # the holder is indexed under the id the CAS would hand out next (delta 0) or just above; the owner behind it and its
+    # arrays and elements have no id: the traversal numbers them from the generator
+    for nviews in (1, 2, 3):
+        for delta in (0, 1, 3):
+            for via in ("ref", "owners", "self"):
+                b = B(nviews=nviews)
+                bad = b.new("c.Other")
+                target = b.owner("c.SubOwner", leaves=b.arr([bad, b.new("c.Leaf"), None, bad]), extra=b.arr([b.new("c.Mid")]))
+                if via == "ref":
+                    holder = b.owner("c.Owner", ref=target)
+                elif via == "owners":
+                    holder = b.owner("c.Owner", owners=b.arr([None, target]), mids=b.arr([bad]))
+                else:
+                    holder = target
+                b.objs[holder - 1]["id"] = nviews + 1 + delta
+                b.add(holder, nviews - 1)
+                yield sc_of(b, "boundary_id:" + via)
+    # two and three adds in a row, each exactly at the generator; an id-less add in between; the same structure added to two views
+    for pattern in ("xx", "x-x", "-x", "xxx", "x2"):
+        b = B(nviews=2)
+        bad = b.new("c.Other")
+        nxt = 3
+        for ch in pattern:
+            if ch == "2":
+                b.add(last, 1)
+                continue
+            o = b.owner("c.Owner", mids=b.arr([bad, b.new("c.Mid")]), ref=b.owner("c.Owner", others=b.arr([b.new("c.Base")])))
+            if ch == "x":
+                b.objs[o - 1]["id"] = nxt
+            nxt += 1
+            b.add(o, 0)
+            last = o
+        yield sc_of(b, "boundary_id:row")
+
+
+STYLE_CODES = [d + r + e + a for a in ("", "a") for d in "on" for r in "on" for e in "on"]
+
+
+def _feature_keys(tspec, adds=()):
+    return ["%s:%s" % (t["name"], f["name"]) for t in tspec for f in t["feats"]] + \
+           ["%s:%s" % (a["type"], a["feat"]["name"]) for a in adds]
+
+
+def random_style(rng, keys, p=0.7):
+    return {k: rng.choice(STYLE_CODES) for k in keys if rng.random() < p}
+
+
+def systematic_style():
+    # every way of passing domain / range / element type (name or Type object; create_feature or the alias), all features of
+    # the type system declared that way; one owner of each owner type, every array feature holding conforming,
+    # non-conforming and null elements
+    for code in STYLE_CODES:
+        if code == "onn":
+            continue
+        b = B()
+        els = [b.new(st) for st in ("c.Base", "c.Mid", "c.Leaf", "c.Other")]
+        for ot in ("c.Owner", "c.SubOwner", "c.AnnOwner"):
+            vals = {fn: b.arr([els[(k + j) % 4] for j in range(3)] + [None, els[3]]) for k, fn in enumerate(OWNER_FEATS[ot])}
+            b.add(b.owner(ot, **vals))
+        sc = sc_of(b, "decl_style:" + code)
+        sc["style"] = {k: code for k in _feature_keys(C_TSPEC)}
+        yield sc
+    # only the FSArray features with an element type declared with Type objects, one at a time
+    for n, e, _m in ARRAY_FEATS:
+        if e is None:
+            continue
+        b = B()
+        els = [b.new(st) for st in ("c.Base", "c.Mid", "c.Leaf", "c.Other", "c.Owner")]
+        b.add(b.owner("c.SubOwner", **{n: b.arr([els[0], els[3], None, els[2], els[4], els[1]])}))
+        sc = sc_of(b, "decl_style:one")
+        sc["style"] = {"c.Owner:" + n: "ooo"}
+        yield sc
+
+
+# (a type without a namespace is created before the type that shares its short name, its subtypes in between)
+N_TSPEC = [
+    {"name": "Item", "super": TOP, "feats": []},
+    {"name": "demo.SpecialItem", "super": "Item", "feats": []},
+    {"name": "legacy.Item", "super": TOP, "feats": []},
+    {"name": "old.SpecialItem", "super": "legacy.Item", "feats": []},
+    {"name": "Owner", "super": TOP, "feats": [_f("label", T + "String"), _f("items", FS_ARRAY, "Item"),
+                                               _f("legacy", FS_ARRAY, "legacy.Item"), _f("any", FS_ARRAY),
+                                               _f("specials", FS_ARRAY, "demo.SpecialItem", True), _f("ref", "Owner")]},
+    {"name": "pkg.Owner", "super": "Owner", "feats": [_f("extra", FS_ARRAY, "Item"), _f("owners", FS_ARRAY, "Owner")]},
+    {"name": "Plain", "super": TOP, "feats": [_f("label", T + "String"), _f("things", FS_ARRAY, "Plain")]},
+    {"name": "Ann", "super": ANNOTATION, "feats": [_f("marks", FS_ARRAY, "legacy.Item")]},
+    {"name": "x.Ann", "super": "Ann", "feats": [_f("more", FS_ARRAY, "Item")]},
+]
+N_FAM = {"owners": ["Owner", "pkg.Owner", "Plain", "Ann", "x.Ann"], "ref": ("Owner", "pkg.Owner"), "ref_targets": ("Owner", "pkg.Owner"),
+         "elems": ["Item", "legacy.Item", "demo.SpecialItem", "old.SpecialItem"]}
+S_FAM = {"owners": S_OWNERS, "elems": S_ELEMS, "ref": ("s.Special", "s.Deep"), "ref_targets": ("s.Holder", "s.Special", "s.Deep")}
+
+
+def _n_sc(b, shape, code="ooo"):
+    sc = {"kind": "tc", "shape": "names:" + shape, "tspec": N_TSPEC, "cspec": b.cspec(), "inl": False, "seeds": None}
+    if code:                                   # every declaration made with Type objects, or (None) with names
+        sc["style"] = {k: code for k in _feature_keys(N_TSPEC)}
+    return sc
+
+
+def systematic_names():
+    cassis = reach._CASSIS.get("m")
+    feats = _array_feats(cassis, N_TSPEC, N_FAM["owners"])
+    # every element type in every array feature of every owner type (names without a namespace, equal short names)
+    for k, ot in enumerate(N_FAM["owners"]):
+        for fn in feats[ot]:
+            b = B()
+            els = [b.new(e) for e in N_FAM["elems"]] + [_s_owner(b, "Plain", 7), _s_owner(b, "pkg.Owner", 8)]
+            b.add(_s_owner(b, ot, k, **{fn: b.arr(els[:2] + [None] + els[2:])}))
+            yield _n_sc(b, "one_feature")
+    # the owner is only referenced; unset / None / empty / only-null arrays
+    b = B()
+    target = _s_owner(b, "Owner", 1, items=b.arr([b.new("legacy.Item"), b.new("Item"), b.new("old.SpecialItem")]),
+                      legacy=b.arr_none(), any=b.arr([]), specials=b.arr([None, None]))
+    mid = _s_owner(b, "pkg.Owner", 2, ref=target, owners=b.arr([target, _s_owner(b, "Plain", 3)]))
+    b.add(_s_owner(b, "Owner", 4, ref=mid))
+    b.add(_s_owner(b, "Plain", 5, things=b.arr([_s_owner(b, "Plain", 6), b.new("Item")])))
+    yield _n_sc(b, "reachable_only")
+    yield _n_sc(b, "reachable_only", None)
+
+
+def random_names(rng):
+    cassis = reach._CASSIS.get("m")
+    sc = {"kind": "tc", "shape": "names:random", "tspec": N_TSPEC, "cspec": random_stage_cas(rng, cassis, N_TSPEC, N_FAM),
+          "inl": False, "seeds": None}
+    r = rng.random()
+    if r < 0.25:
+        reach.set_ids(sc, rng.choice(["all", "partial"]), rng)
+    elif r < 0.5:
+        set_boundary_ids(sc, rng)
+    r = rng.random()
+    if r < 0.5:
+        sc["style"] = {k: "ooo" for k in _feature_keys(N_TSPEC)}
+    elif r < 0.75:
+        sc["style"] = random_style(rng, _feature_keys(N_TSPEC))
+    if rng.random() < 0.2:
+        sc["foreign"] = sorted(o["o"] for o in sc["cspec"]["objs"] if rng.random() < 0.6)
+        sc["how"] = "rebuild"
+    return sc
+
+
+def fourth_families(rng, tier):
+    """Ids at the generator, declarations by Type object / alias, names without a namespace (fourth-wave widening)."""
+    if tier != "search":
+        yield from systematic_boundary()
+        yield from systematic_style()
+        yield from systematic_names()
+    for _ in range({"quick": 40, "thorough": 600, "search": 300}[tier]):
+        sc = random_tc(rng, rng.choice([1, 2, 3, 4]), ids=False)
+        sc["shape"] = "boundary_id:random"
+        yield set_boundary_ids(sc, rng)
+    for _ in range({"quick": 30, "thorough": 500, "search": 300}[tier]):
+        if rng.random() < 0.5:
+            sc = random_tc(rng, rng.choice([1, 2, 3, 4]))
+            sc["shape"] = "decl_style:random"
+            sc["style"] = random_style(rng, _feature_keys(C_TSPEC))
+        else:
+            sc = random_staged(rng)
+            sc["shape"] = "staged:style"
+            sc["style"] = random_style(rng, _feature_keys(sc["tspec"], [a for st in sc["stages"] for a in st["add"]]))
+        yield sc
+    for _ in range({"quick": 40, "thorough": 600, "search": 300}[tier]):
+        yield random_names(rng)
+
+
 def new_families(rng, tier):
     """Sequences of calls and foreign Type objects (third-wave widening)."""
     if tier != "search":
@@ -534,6 +767,10 @@ def new_families(rng, tier):
 def generate(rng, tier):
     # the new families draw from a stream of their own, so that everything generated before them is what it always was
     if tier == "search":
+        rng3 = random.Random()
+        rng3.setstate(rng.getstate())
+        rng3.random()
+        yield from fourth_families(rng3, tier)
         rng2 = random.Random()
         rng2.setstate(rng.getstate())
         yield from new_families(rng2, tier)
@@ -554,24 +791,76 @@ def generate(rng, tier):
         yield {"kind": "tc", "shape": "gen_cspec", "tspec": tspec, "cspec": cspec, "inl": False, "seeds": None}
     if tier != "search":
         yield from new_families(rng, tier)
+        yield from fourth_families(rng, tier)
 
 
 # ------------------------------------------------------------------------------------------------ implementation side
 
 
-def _build_cas_mixed(cassis, ts, ts2, foreign, cspec):
-    """scen.build_cas, except that the objects labelled in `foreign` are created with the Type objects of ts2; the CAS, its
-    views and sofas belong to ts."""
+def _declare(ts, types, tname, f, code):
+    """One create_feature call, its arguments passed as `code` says (see the fourth-wave families)."""
+    code = code or "onn"
+
+    def obj(n):
+        return types[n] if n in types else ts.get_type(n)
+
+    dom = obj(tname) if code[0] == "o" else tname
+    rng = obj(f["range"]) if code[1] == "o" else f["range"]
+    el = f.get("elem")
+    if el is not None and code[2] == "o":
+        el = obj(el)
+    if "a" in code[3:]:
+        ts.add_feature(dom, f["name"], rng, elementType=el, multipleReferencesAllowed=f.get("multi"))
+    else:
+        ts.create_feature(dom, f["name"], rng, elementType=el, multipleReferencesAllowed=f.get("multi"))
+
+
+def build_ts(cassis, tspec, style=None):
+    """scen.build_ts (all types in list order, then all features type by type), every feature declared the way `style` says.
+    Returns (TypeSystem, name -> Type object as create_type returned it): the harness never asks the type system for a
+    user type by name, so that what typecheck does with a name is seen inside typecheck."""
+    style = style or {}
+    ts = cassis.TypeSystem()
+    types = {}
+    for t in tspec:
+        types[t["name"]] = ts.create_type(t["name"], t["super"])
+    for t in tspec:
+        for f in t["feats"]:
+            _declare(ts, types, t["name"], f, style.get("%s:%s" % (t["name"], f["name"])))
+    return ts, types
+
+
+def _probe_next(cas, types, tspec):
+    """The id the generator hands out next, observed through the public API: add a fresh id-less structure."""
+    p = types[tspec[0]["name"]]()
+    cas.add(p)
+    return p.xmiID
+
+
+def _build_cas(cassis, ts, types, types2, foreign, cspec):
+    """scen.build_cas, except that the Type objects come from `types` (those labelled in `foreign`: from types2, the Type
+    objects of a second TypeSystem); the CAS, its views and sofas belong to ts."""
     cas = cassis.Cas(typesystem=ts)
-    views = [cas if i == 0 else cas.create_view(v["name"]) for i, v in enumerate(cspec["views"])]
-    for view, v in zip(views, cspec["views"]):
+    views = []
+    for i, v in enumerate(cspec["views"]):
+        view = cas if i == 0 else cas.create_view(v["name"])
+        if v.get("text0") is not None and v.get("text") is not None:
+            view.sofa_string = "".join(chr(c) for c in v["text0"])
         if v.get("text") is not None:
             view.sofa_string = "".join(chr(c) for c in v["text"])
+        if v.get("mime") is not None:
+            view.sofa_mime = v["mime"]
+        views.append(view)
     vname = {v["name"]: views[i] for i, v in enumerate(cspec["views"])}
     objs = {}
+
+    def type_of(o):
+        tt = types2 if o["o"] in foreign else types
+        return tt[o["type"]] if o["type"] in tt else ts.get_type(o["type"])        # built-in types: full names with dots
+
     for o in cspec["objs"]:
         kw = {"xmiID": o["id"]} if o.get("id") is not None else {}
-        objs[o["o"]] = (ts2 if o["o"] in foreign else ts).get_type(o["type"])(**kw)
+        objs[o["o"]] = type_of(o)(**kw)
 
     def conv(v):
         if v is None:
@@ -579,6 +868,8 @@ def _build_cas_mixed(cassis, ts, ts2, foreign, cspec):
         for k in ("i", "b", "s"):
             if k in v:
                 return v[k]
+        if "f" in v:
+            return scen.unfl(v["f"])
         if "ref" in v:
             return objs[v["ref"]]
         if "list" in v:
@@ -597,31 +888,32 @@ def _build_cas_mixed(cassis, ts, ts2, foreign, cspec):
 
 def run_impl(cassis, sc):
     reach._CASSIS["m"] = cassis
-    ts = scen.build_ts(cassis, sc["tspec"])                       # ONE TypeSystem object for all calls of the scenario
+    style = sc.get("style") or {}
+    ts, types = build_ts(cassis, sc["tspec"], style)              # ONE TypeSystem object for all calls of the scenario
     if "stages" not in sc:
-        return _run_call(cassis, ts, sc)
+        return _run_call(cassis, ts, types, sc)
     out = []
     for st, call in zip(sc["stages"], stages_of(sc)):
         for a in st["add"]:
-            f = a["feat"]
-            ts.create_feature(ts.get_type(a["type"]), f["name"], f["range"], elementType=f.get("elem"),
-                              multipleReferencesAllowed=f.get("multi"))
-        out.append(_run_call(cassis, ts, call))
+            _declare(ts, types, a["type"], a["feat"], style.get("%s:%s" % (a["type"], a["feat"]["name"])))
+        out.append(_run_call(cassis, ts, types, call))
     return {"stages": out, "err": next((o["err"] for o in out if o["err"]), None), "owners": [i for o in out for i in o["owners"]]}
 
 
-def _run_call(cassis, ts, sc):
+def _run_call(cassis, ts, types, sc):
     foreign = set(sc.get("foreign") or [])
-    if foreign:
-        ts2 = cassis.load_typesystem(ts.to_xml()) if sc.get("how") == "reload" else scen.build_ts(cassis, sc["tspec"])
+    types2 = {}
+    if foreign and sc.get("how") == "reload":
+        types2 = {t.name: t for t in cassis.load_typesystem(ts.to_xml()).get_types(built_in=True)}
+    elif foreign:
+        ts2, types2 = build_ts(cassis, sc["tspec"], sc.get("style"))
+        types2 = dict({t.name: t for t in ts2.get_types(built_in=True)}, **types2)
 
-        def build():
-            return _build_cas_mixed(cassis, ts, ts2, foreign, sc["cspec"])
-    else:
-        def build():
-            return scen.build_cas(cassis, ts, sc["cspec"])
+    def build():
+        return _build_cas(cassis, ts, types, types2, foreign, sc["cspec"])
+
     cas0, _v0, _o0 = build()
-    next_before = reach._probe_next(cas0, ts, sc["tspec"])
+    next_before = _probe_next(cas0, types, sc["tspec"])
     cas, views, objs = build()
     lab = {id(o): l for l, o in objs.items()}
     ids_before = {str(l): o.xmiID for l, o in objs.items()}
@@ -686,10 +978,16 @@ def _oracle_call(cassis, sc, obs):
     if obs["err"] is not None:
         idb = {int(k): v for k, v in obs["ids_before"].items()}
         if obs["err"] == "EDupId":
+            # legitimate only when two reachable structures carry the same id, or an id-less one meets an explicit id the
+            # generator was never told about: the generator's position follows from the scenario (expected_next), every id
+            # kept by add(keep_id=True) is behind it
             rs = reach.expected_reach(cassis, sc, obs)
             ids = [idb[l] for l in rs if idb[l] is not None]
-            if len(set(ids)) < len(ids) or (any(idb[l] is None for l in rs) and any(i >= obs["next_before"] for i in ids)):
+            nxt, _ids = expected_next(sc["cspec"])
+            if len(set(ids)) < len(ids) or (any(idb[l] is None for l in rs) and any(i >= nxt for i in ids)):
                 return None
+            return (f"typecheck raised EDupId although the explicit ids {sorted(ids)[:20]} of the reachable structures are distinct "
+                    f"and below {nxt}, where the id generator stands after the CAS was built")
         return f"typecheck raised {obs['err']}"
     ida = {int(k): v for k, v in obs["ids_after"].items()}
     labels = expected_owner_labels(cassis, sc, obs)
@@ -731,10 +1029,10 @@ def _render_call(sc, obs):
         if sc.get("decl"):
             schema = in_declared_order(schema, sc["decl"])
         names = scen.used_type_names(schema, sc["cspec"])
-        if sc["tspec"][0]["name"] == "s.Item":
+        if sc["tspec"][0]["name"] in ("s.Item", "Item"):
             # the user types (sorted before uima.*) rendered per call, the built-in rest by the constant when it is verbatim
             ok, builtin = reach.schema_const_usable(cassis, [], SB_OBJ_TYPES, "CorrC19.v", "schemaSB")
-            own = [n for n in names if n.startswith("s.")]
+            own = [n for n in names if not n.startswith("uima.")]
             if ok and all(n in builtin for n in names if n not in own):
                 schema_term = f"({scen.g_schema(schema, own)}\n  ++ schemaSB)"
     if schema_term is None:
@@ -765,9 +1063,25 @@ def _shrink_call(sc):
         c = json.loads(json.dumps(sc))
         del c["foreign"][i]
         yield c
+    if sc.get("shape", "").startswith(("boundary_id", "names")):
+        for o in sc["cspec"]["objs"]:
+            if o["id"] is not None:
+                c = json.loads(json.dumps(sc))
+                [x for x in c["cspec"]["objs"] if x["o"] == o["o"]][0]["id"] = None
+                yield c
+
+
+def _shrink_style(sc):
+    if sc.get("shape", "").startswith("names"):       # declared by name, that type system may not even build: keep the call
+        return
+    for k in sorted(sc.get("style") or {}):
+        c = json.loads(json.dumps(sc))
+        del c["style"][k]
+        yield c
 
 
 def shrink_candidates(sc):
+    yield from _shrink_style(sc)
     if "stages" not in sc:
         yield from _shrink_call(sc)
         return
